@@ -1,5 +1,6 @@
 From Coq Require Import ExtrOcamlBasic NArith ZArith List String.
-From LV Require Import lib.Conv model.LockDiscipline gen.LockTable model.Wlru model.Semaphore.
+From LV Require Import lib.Conv model.LockDiscipline gen.LockTable model.Wlru model.Semaphore spec.KvSpec
+  model.CrashBase model.SyncedPool model.LinObjects.
 (* evaluated inside Coq: names as character codes, [method_ok] already computed per row *)
 Definition lock_table_x : list (list N * list N * bool * bool) :=
   Eval vm_compute in map row_summary lock_table.
@@ -12,4 +13,6 @@ Definition lru_weight : Wlru.cache N N -> N := @Wlru.weight N N.
 Definition lru_len : Wlru.cache N N -> N := @Wlru.len N N.
 Definition sem_try : metric -> metric -> metric -> option metric := try_acquire true.
 Definition sem_release (h c w : metric) : metric := held (fst (release (mkS h c nil nil) w)).
-Extraction "model.ml" conv_roots lock_table_x lru_new lru_step lru_weight lru_len sem_try sem_release mkM mnum msize.
+(* C22's Flushable and C25's SyncedPool, assembled into step functions in model/LinObjects.v *)
+Extraction "model.ml" conv_roots lock_table_x lru_new lru_step lru_weight lru_len sem_try sem_release mkM mnum msize
+  fl_step f_init pl_step p_init.
